@@ -10,5 +10,16 @@ Check (C04_runs_single_key :
 Check (eq_refl : match_keyed = fun f k m =>
   exists st, Forall (fun p => ekey f (fst p) = k) st /\ m_stack m = map (fun p => eid (fst p)) st).
 Check (eq_refl : ekey = fun f e => match get f e with Some v => KVal v | None => KMissing end).
+From Coq Require Import Permutation.
+From VP Require Import Sase.Ref.
+Check (C04_sequence_patterns_decompose :
+  forall s0 rest0 part max_runs st lim evs keys,
+    Forall (fun s => st_all s = false) (s0 :: rest0) -> rest0 <> [] -> length evs <= max_runs ->
+    NoDup keys -> (forall e, In e evs -> In (key_of part e) keys) ->
+    let g := mkCfg (compile (s0 :: rest0)) [] part max_runs st lim in
+    exists l ls, engine_stacks g engine0 evs = Some l /\
+      Forall2 (fun k lk => engine_stacks g engine0 (filter (fun e => pkey_eqb (key_of part e) k) evs) = Some lk) keys ls /\
+      Permutation l (concat ls)).
+Print Assumptions C04_sequence_patterns_decompose.
 Print Assumptions C04_matches_single_key.
 Print Assumptions C04_runs_single_key.
